@@ -167,6 +167,15 @@ def run(tier, seed, findings):
             ok, _ = guarded("StepMap.for_each", [m, lambda a, b, c, d: fe.append((a, b, c, d))], dict(fn="for_each", ranges=r, inverted=inverted))
             for pos in range(0, pre_size + 2):
                 res = {}
+                # touches(pos, recover) for *every* range, not only the one mapping pos produced a recover value for:
+                # where two ranges touch, the shared position touches both (old-coordinate ranges as for_each reports them)
+                if ok:
+                    for k, (a, b, _c, _d) in enumerate(fe):
+                        callt = dict(fn="touches", ranges=r, inverted=inverted, pos=pos, recover=k + 3 * 65536)
+                        rec.case(callt, nontrivial=len(fe) > 1, sample=callt)
+                        okt, t = guarded("StepMap.touches", [m, pos, k + 3 * 65536], callt)
+                        if okt and t != (a <= pos <= b):
+                            rec.violation("touches-range", f"touches() says {t} for range {k} = [{a}, {b}] reported by for_each", callt)
                 for assoc in (-1, 1):
                     call = dict(fn="_map", ranges=r, inverted=inverted, pos=pos, assoc=assoc)
                     rec.case(call, nontrivial=len(r) > 0, sample=call)
